@@ -125,15 +125,7 @@ def gen_unjudged_calls(rnd, fn):
 
 def run_unjudged_calls(ns, ctx, case):
     for call in case.get('before') or ():
-        fn = getattr(ns.geodesy, call['fn'])
-        ctx.count('unjudged_calls_before_a_judged_one')
-        try:
-            with core.deadline(30):
-                fn(*call['args'], tmwork.ell_obj(ns, call['ell']))
-        except core.DidNotReturn:
-            ctx.count('unjudged_call_did_not_return_in_30s')
-        except Exception as e:
-            ctx.count('unjudged_call_raised:' + type(e).__name__)
+        core.unjudged(ctx, getattr(ns.geodesy, call['fn']), *call['args'], tmwork.ell_obj(ns, call['ell']))
 
 
 def judge_direct(ns, ctx, case):
